@@ -35,12 +35,12 @@ var castStems = []string{"Uint16", "Int16", "Uint32", "Int32", "Uint64", "Int64"
 var specGUIDOrder = [16]int{3, 2, 1, 0, 5, 4, 7, 6, 8, 9, 10, 11, 12, 13, 14, 15}
 
 type ioFn struct {
-	p    *load.Prog
-	info *types.Info
-	fd   *ast.FuncDecl
-	name string
-	ren  map[string]string
-	clos []*ioFn
+	p      *load.Prog
+	info   *types.Info
+	fd     *ast.FuncDecl
+	name   string
+	ren    map[string]string
+	clos   []*ioFn
 	arrLen int
 }
 
@@ -2227,7 +2227,6 @@ func analyseLatch(f *ioFn, stream, latch string) latchFacts {
 	return res
 }
 
-
 // closure: f and the package-local functions it calls, transitively (helpers
 // extracted from it are part of what it does). Depth-limited, no recursion.
 func (f *ioFn) closure() []*ioFn {
@@ -2334,7 +2333,6 @@ func boolToByteOK(f *ioFn) bool {
 	return ok
 }
 
-
 // canonBuf spells the function's first []byte parameter "buf" whatever the
 // function is called (helpers extracted from a ...Bytes function keep the role).
 func (f *ioFn) canonBuf(e ast.Expr) string {
@@ -2348,7 +2346,6 @@ func (f *ioFn) canonBuf(e ast.Expr) string {
 	}
 	return s
 }
-
 
 // streamAcc is the access a stream helper makes to its own stream.
 type streamAcc struct {
@@ -2475,7 +2472,6 @@ func (f *ioFn) usesGenericHelper() string {
 	}
 	return ""
 }
-
 
 // packageTable: the package-level variable v is declared with a composite
 // literal of integer constants and no function of the package assigns to it
